@@ -156,6 +156,33 @@ def _routing():
             "detail": "; ".join(problems) if problems else "%d types routed: %s" % (len(ROUTED), ", ".join(t for t, _ in ROUTED))}
 
 
+CONSTRUCTORS = {
+    # invariant-bearing type -> the only functions that may build a value of it (each is under contract or validated)
+    "SecretKey": {"impl SecretKey::new", "impl TryFrom for SecretKey::try_from"},
+    "PublicKey": {"impl PublicKey::from_secret_key", "impl TryFrom for PublicKey::try_from"},
+    "KeyPair": {"impl KeyPair::new"},
+    "PedersenParameters": {"impl PedersenParameters::from_generators", "impl PedersenParameters::new", "impl TryFrom for PedersenParameters::try_from"},
+    "Balance": {"impl Balance::try_new", "impl Balance::zero"},
+}
+
+
+@scan("validated_constructor_sites")
+def _constructors():
+    problems = []
+    n = 0
+    for ty, allowed in CONSTRUCTORS.items():
+        r = only_in("constructs", ty, ZC_FILES + ZA_FILES, allowed, "")
+        n += 1
+        if not r["ok"]:
+            problems.append("%s: %s" % (ty, r["detail"]))
+    if problems:
+        # a new construction site may be a harmless helper or a path around the validators: undecided, the bounded
+        # decode-validation stand-ins give the verdict
+        raise Machinery("validated_constructor_sites: a value of an invariant-bearing type is now built outside its generators / validators (not under contract): " + "; ".join(problems)[:600])
+    return {"ok": not problems, "what": "values of the invariant-bearing types (secret/public key, key pair, Pedersen parameters, balance) are built only by their generators and decode-time validators - no other function (e.g. a new decode path) constructs them directly",
+            "detail": "; ".join(problems) if problems else "%d types, all construction sites inside their validated constructors" % n}
+
+
 STAGE_TYPES = ["Requested", "Inactive", "Ready", "Started", "Locked", "State", "CloseState", "CloseStateSignature", "PayToken", "BlindingFactors",
                "CloseStateBlindingFactor", "PayTokenBlindingFactor", "RevocationLockBlindingFactor", "RevocationLock", "RevocationSecret", "ChannelId",
                "MerchantBalance", "CustomerBalance", "BlindingFactor", "Signature", "Nonce", "RevocationPair", "Balance"]
